@@ -2119,7 +2119,8 @@ template< size_t L>
 
    if (index < mLength)
    {
-      if (mLength + count <= L)
+      // count can be max(64bit), so we cannot calc mLength + count
+      if (count <= L - mLength)
       {
          // aaaccccc\0, insert( 3, "bbbb")
          // length = 8, L > 11
@@ -2129,13 +2130,13 @@ template< size_t L>
          // --> aaabbbbccccc\0
          std::memcpy( &mString[ index], str, count);
          mLength += count;
-      } else if (index + count <= L)
+      } else if (count <= L - index)
       {
          // aaaccccc\0, insert( 3, "bbbb")
          // length = 8, L = 10
          // --> aaa____ccc\0
          std::memmove( &mString[ index + count], &mString[ index],
-            mLength - index + 1);
+            L - index - count);
          // --> aaabbbbccc\0
          std::memcpy( &mString[ index], str, count);
          mLength = L;
@@ -2150,7 +2151,7 @@ template< size_t L>
    } else
    {
       // append at the end
-      if (mLength + count > L)
+      if (count > L - mLength)
          count = L - mLength;
 
       std::memcpy( &mString[ mLength], str, count);
